@@ -196,6 +196,20 @@ func c01Run(c *core.Ctx) {
 			check(strings.ReplaceAll(t, "%s", n), false, 6)
 		}
 	}
+	// (ii-d') every escape / text fragment of the literal alphabet inside executable programs, both quote styles
+	for fi, f := range c07Fragments(1000) {
+		if !c.Mine(int64(fi)) || c.Tick() {
+			continue
+		}
+		for _, q := range []string{"'", "\""} {
+			if strings.Contains(f, q) && !strings.HasPrefix(f, "\\") {
+				continue
+			}
+			lit := q + "a" + f + "b" + q
+			c.Inc("escape_programs")
+			check("let s = "+lit+";\nprint(s.length, s, "+q+f+q+" + s);\nif (s == "+lit+") { print(1) } else { print(2) }", false, 30)
+		}
+	}
 	// (ii-d) scale family: one shape per size around typical thresholds
 	for i, sp := range gen.Scale(c.Thorough()) {
 		if !c.Mine(int64(i)) || c.Tick() {
